@@ -49,15 +49,26 @@ static int alloc_del(void *p)
 	}
 	return 0;
 }
+static long fail_countdown;   /* >0: the n-th allocation from now fails (once) */
+static int fail_fired;
+static int fail_now(void)
+{
+	if (fail_countdown > 0 && !--fail_countdown) { fail_fired = 1; return 1; }
+	return 0;
+}
 void *vf_malloc(size_t n)
 {
-	void *p = malloc(n);
+	void *p;
+	if (fail_now()) return 0;
+	p = malloc(n);
 	alloc_add(p);
 	return p;
 }
 void *vf_calloc(size_t a, size_t b)
 {
-	void *p = calloc(a, b);
+	void *p;
+	if (fail_now()) return 0;
+	p = calloc(a, b);
 	alloc_add(p);
 	return p;
 }
@@ -117,8 +128,10 @@ static uintptr_t cm_addref(MPT_INTERFACE(metatype) *m)
 	return 0;   /* not shareable: holders must clone */
 }
 static MPT_INTERFACE(metatype) *cm_new(long payload);
+static long metafail_countdown;   /* >0: the n-th value clone from now fails (once) */
 static MPT_INTERFACE(metatype) *cm_clone(const MPT_INTERFACE(metatype) *m)
 {
+	if (metafail_countdown > 0 && !--metafail_countdown) { fail_fired = 1; return 0; }
 	return cm_new(((const struct cmeta *) m)->payload);
 }
 static const MPT_INTERFACE_VPTR(metatype) cm_vptr = { { cm_convert }, cm_unref, cm_addref, cm_clone };
@@ -187,6 +200,7 @@ static void drv_reset(void)
 	nmax = 0;
 }
 
+static long long alloc_mark;   /* allocated blocks before a clonefail call */
 static int quiet;   /* step given with q=1: execute, log nothing but the step itself */
 
 static void emit(struct cmd *c, int isnum, long long num, const char *str,
@@ -207,6 +221,10 @@ static void emit(struct cmd *c, int isnum, long long num, const char *str,
 	else if (isnum) j_int("ret", num);
 	else j_str("ret", str);
 	j_int("skip", (!seq && !isnum && str && !strcmp(str, "skipped")) ? 1 : 0);
+	if (!strcmp(c->action, "clonefail")) {
+		j_int("fired", fail_fired);
+		j_int("grow", (long long) nallocs - alloc_mark);
+	}
 	/* released handles, ascending (duplicates stay) */
 	for (i = 0; i < nfreed; i++) {
 		for (j = i + 1; j < nfreed; j++) {
@@ -355,6 +373,13 @@ static int guard_ok(const struct cmd *c)
 	if (!strcmp(a, "after") || !strcmp(a, "before")) {
 		return n && isolated(n) && (pn == 0 || p == n || can_attach(n, p));
 	}
+	if (!strcmp(a, "clonefail")) {
+		const char *kind = arg_name(c, "kind");
+		if (!strcmp(kind, "clonenode")) return n && free_slots() >= 1;
+		if (!strcmp(kind, "clonetree")) return n && free_slots() >= count_tree(n, MAXN);
+		if (!strcmp(kind, "clonelist")) return n && free_slots() >= count_list(n, MAXN);
+		return 0;
+	}
 	if (!strcmp(a, "clonenode")) return n && free_slots() >= 1;
 	if (!strcmp(a, "clonetree")) return n && free_slots() >= count_tree(n, MAXN);
 	if (!strcmp(a, "clonelist")) return n && free_slots() >= count_list(n, MAXN);
@@ -432,6 +457,19 @@ static void drv_step(struct cmd *c)
 		struct mpt_node *r;
 		int budget = MAXN;
 		r = (a[5] == 'n') ? mpt_node_clone(n) : (a[5] == 't') ? mpt_tree_clone(n) : mpt_list_clone(n);
+		enter_list(r, &budget);
+		RET_NUM(c, id_of(r));
+	}
+	else if (!strcmp(a, "clonefail")) {
+		const char *kind = arg_name(c, "kind");
+		struct mpt_node *r;
+		int budget = MAXN;
+		alloc_mark = (long long) nallocs;
+		fail_fired = 0;
+		fail_countdown = (long) drv_int(c, "failat", 0);
+		metafail_countdown = (long) drv_int(c, "failmeta", 0);
+		r = !strcmp(kind, "clonenode") ? mpt_node_clone(n) : !strcmp(kind, "clonetree") ? mpt_tree_clone(n) : mpt_list_clone(n);
+		fail_countdown = metafail_countdown = 0;
 		enter_list(r, &budget);
 		RET_NUM(c, id_of(r));
 	}
